@@ -75,7 +75,7 @@ func zooInserts(table string, ncols int, aliasPos int) []string {
 
 func zooCases(thorough bool) []zooCase {
 	var out []zooCase
-	mods := []string{"", " DESC", " COLLATE NOCASE"}
+	mods := []string{"", " DESC", " COLLATE NOCASE", " COLLATE BINARY", " COLLATE RTRIM DESC"}
 	for ni, names := range zooColNames {
 		// --- rowid tables: alias position none/0/1/2/3, one or two secondary indexes over ordered column subsets
 		for alias := -1; alias < 4; alias++ {
